@@ -430,6 +430,7 @@ def lemma_extremal():
         z3.ForAll([p, q], z3.Implies(z3.And(inc(p), inc(q), rank(p) == rank(q)), p == q)),
         z3.ForAll([p], z3.Implies(z3.And(inc(p), rank(p) > 0),
                                   z3.And(inc(succ(p)), rank(succ(p)) == rank(p) - 1))),
+        z3.ForAll([p], z3.Implies(inc(p), rank(p) >= 0)),
         inc(r), tid(r) < t,
         z3.ForAll([q], z3.Implies(z3.And(inc(q), rank(q) < rank(r)), tid(q) >= t)),
     ]
